@@ -181,12 +181,11 @@ Fixpoint ms_struct (keys : list bytes) (parsed : option bool) (sigs : list bytes
       | pubKey :: krest =>
           if Nat.ltb (length keys) (length sigs) then LDone false else
           match split_last rawSig with
-          | None => ms_struct krest parsed sigs
+          | None => if negb (check_pubkey_enc c pubKey) then LErr else ms_struct krest parsed sigs
           | Some (sig, hb) =>
               let shf := b2n hb in
               let der := uses_der_parser c in
               let with_parsed (p' : option bool) : loop_res :=
-                if negb (check_pubkey_enc c pubKey) then LErr else
                 if negb (orc_parse_pub orc pubKey) then ms_struct krest p' sigs else
                 match unparse script with
                 | None => LPushFalse
@@ -202,18 +201,21 @@ Fixpoint ms_struct (keys : list bytes) (parsed : option bool) (sigs : list bytes
                     | SigHash.SPanic | SFatal | SFuel => LPanic
                     end
                 end in
-              match parsed with
-              | None =>
-                  if negb (check_hash_type c shf) then LErr else
-                  match check_sig_enc c sig with
-                  | EncErr => LErr
-                  | EncPanic => LPanic
-                  | EncOk =>
+              match (match parsed with
+                     | None => if negb (check_hash_type c shf) then EncErr else check_sig_enc c sig
+                     | Some _ => EncOk
+                     end) with
+              | EncErr => LErr
+              | EncPanic => LPanic
+              | EncOk =>
+                  if negb (check_pubkey_enc c pubKey) then LErr else
+                  match parsed with
+                  | None =>
                       let ok := orc_parse_sig orc der sig in
                       if ok then with_parsed (Some ok) else ms_struct krest (Some ok) sigs
+                  | Some false => ms_struct krest parsed sigs
+                  | Some true => with_parsed parsed
                   end
-              | Some false => ms_struct krest parsed sigs
-              | Some true => with_parsed parsed
               end
           end
       end
@@ -317,7 +319,8 @@ Proof.
       { intros v. split; [rewrite upd_length; exact Hml|]. split.
         - intros j Hj1 Hj2. rewrite upd_nth_other by lia. apply Habove; assumption.
         - apply nth_error_nth. apply upd_nth_same. lia. }
-      destruct (split_last rawSig) as [[sg hb]|]; [|apply Hcont; assumption].
+      destruct (split_last rawSig) as [[sg hb]|].
+      2:{ destruct (negb (check_pubkey_enc c pk)); [reflexivity|]. apply Hcont; assumption. }
       cbv zeta. rewrite Nat2Z.id.
       destruct (nth si ml None) as [[|]|] eqn:Em.
       * (* parsed, valid *)
@@ -328,14 +331,15 @@ Proof.
         destruct (orc_verify orc pk b sg (uses_der_parser c)) as [[|]|]; [apply Hadv; assumption| |reflexivity].
         rewrite Hcont, Em by assumption. reflexivity.
       * (* parsed, invalid *)
+        destruct (negb (check_pubkey_enc c pk)); [reflexivity|].
         rewrite Hcont, Em by assumption. reflexivity.
       * (* not parsed yet *)
         destruct (negb (check_hash_type c (b2n hb))); [reflexivity|].
         destruct (check_sig_enc c sg); try reflexivity.
+        destruct (negb (check_pubkey_enc c pk)); [reflexivity|].
         destruct (Hupd (Some (orc_parse_sig orc (uses_der_parser c) sg))) as (U1 & U2 & U3).
         destruct (orc_parse_sig orc (uses_der_parser c) sg) eqn:Eps.
-        -- destruct (negb (check_pubkey_enc c pk)); [reflexivity|].
-           destruct (negb (orc_parse_pub orc pk)); [rewrite Hcont, U3 by assumption; reflexivity|].
+        -- destruct (negb (orc_parse_pub orc pk)); [rewrite Hcont, U3 by assumption; reflexivity|].
            destruct (unparse script); [|reflexivity].
            destruct (sighash_for t in_idx l (b2n hb)); try reflexivity.
            destruct (orc_verify orc pk b sg (uses_der_parser c)) as [[|]|]; [apply Hadv; assumption| |reflexivity].
@@ -368,11 +372,11 @@ Proof.
   intros Hok. induction keys as [|pk krest IH]; intros parsed [|rawSig srest]; cbn [ms_struct];
     try (split; discriminate).
   destruct (Nat.ltb _ _); [split; discriminate|].
-  destruct (split_last rawSig) as [[sg hb]|]; [|apply IH].
+  destruct (split_last rawSig) as [[sg hb]|].
+  2:{ destruct (negb (check_pubkey_enc c pk)); [split; discriminate|apply IH]. }
   cbv zeta.
-  assert (Hwp : forall p', 
-    (if negb (check_pubkey_enc c pk) then LErr
-     else if negb (orc_parse_pub orc pk) then ms_struct orc t in_idx c script krest p' (rawSig :: srest)
+  assert (Hwp : forall p',
+    (if negb (orc_parse_pub orc pk) then ms_struct orc t in_idx c script krest p' (rawSig :: srest)
      else match unparse script with
           | Some up =>
               match sighash_for t in_idx up (b2n hb) with
@@ -387,8 +391,7 @@ Proof.
               end
           | None => LPushFalse
           end) <> LPanic /\
-    (if negb (check_pubkey_enc c pk) then LErr
-     else if negb (orc_parse_pub orc pk) then ms_struct orc t in_idx c script krest p' (rawSig :: srest)
+    (if negb (orc_parse_pub orc pk) then ms_struct orc t in_idx c script krest p' (rawSig :: srest)
      else match unparse script with
           | Some up =>
               match sighash_for t in_idx up (b2n hb) with
@@ -403,16 +406,18 @@ Proof.
               end
           | None => LPushFalse
           end) <> LFuel).
-  { intros p'. destruct (negb (check_pubkey_enc c pk)); [split; discriminate|].
-    destruct (negb (orc_parse_pub orc pk)); [apply IH|].
+  { intros p'. destruct (negb (orc_parse_pub orc pk)); [apply IH|].
     destruct (unparse script) as [up|]; [|split; discriminate].
     destruct (sighash_for_total t in_idx up (b2n hb) Hok) as [[h ->]|[e ->]]; [|split; discriminate].
     destruct (orc_verify orc pk h sg (uses_der_parser c)) as [[|]|]; [apply IH|apply IH|split; discriminate]. }
-  destruct parsed as [[|]|]; [apply Hwp|apply IH|].
-  destruct (negb (check_hash_type c (b2n hb))); [split; discriminate|].
   pose proof (check_sig_enc_no_panic c sg) as Hnp.
-  destruct (check_sig_enc c sg); [|split; discriminate|congruence].
-  destruct (orc_parse_sig orc (uses_der_parser c) sg); [apply Hwp|apply IH].
+  destruct parsed as [[|]|].
+  - destruct (negb (check_pubkey_enc c pk)); [split; discriminate|apply Hwp].
+  - destruct (negb (check_pubkey_enc c pk)); [split; discriminate|apply IH].
+  - destruct (negb (check_hash_type c (b2n hb))); [split; discriminate|].
+    destruct (check_sig_enc c sg); [|split; discriminate|congruence].
+    destruct (negb (check_pubkey_enc c pk)); [split; discriminate|].
+    destruct (orc_parse_sig orc (uses_der_parser c) sg); [apply Hwp|apply IH].
 Qed.
 
 (** ** sigops_ok for the C06 instance (needed by the interpreter totality theorem, C07) *)
@@ -449,10 +454,11 @@ Proof.
   destruct (negb (check_pubkey_enc c pk)); cbn [option_map]; [exact Hge|].
   destruct (unparse _) as [up|]; cbn [option_map]; [|exact Hge].
   destruct (sighash_for_total t i up (b2n hb) Hok) as [[h ->]|[e ->]]; cbn [option_map]; [|exact Hge].
-  destruct (negb (orc_parse_pub orc pk)); cbn [option_map]; [apply Hg|].
-  destruct (negb (orc_parse_sig orc (uses_der_parser c) sg)); cbn [option_map]; [apply Hg|].
-  destruct (orc_verify orc pk h sg (uses_der_parser c)) as [ok|]; cbn [option_map]; [|apply good_err].
-  destruct (negb ok && has_flag c F_NULLFAIL && Nat.ltb 0 (length sg))%bool; cbn [option_map]; [exact Hge|apply Hg].
+  assert (Hgf : good s (finish_verify vf (checksig_failed c s1 full))).
+  { unfold checksig_failed. destruct (has_flag c F_NULLFAIL && Nat.ltb 0 (length full))%bool; [exact Hge|apply Hg]. }
+  destruct (negb (orc_parse_pub orc pk)); cbn [option_map]; [exact Hgf|].
+  destruct (negb (orc_parse_sig orc (uses_der_parser c) sg)); cbn [option_map]; [exact Hgf|].
+  destruct (orc_verify orc pk h sg (uses_der_parser c)) as [[|]|]; cbn [option_map]; [apply Hg|exact Hgf|apply good_err].
 Qed.
 
 Lemma pop_n_length n d a b : (0 <= n)%Z -> pop_n n d = Some (a, b) -> Z.of_nat (length a) = n /\ d = a ++ b.
@@ -553,10 +559,11 @@ Proof.
   destruct (Nat.ltb _ _); [reflexivity|].
   inversion Hk as [|? ? Hpk Hk']; subst. inversion Hs as [|? ? Hraw Hs']; subst.
   unfold pair_ok at 1. unfold sig_well_encoded in Hraw. unfold memo_ok in Hm.
+  unfold key_well_encoded in Hpk.
   destruct (split_last raw) as [[sg hb]|] eqn:Esl.
-  2:{ apply IH; try assumption. unfold memo_ok. destruct m; [rewrite Esl|]; exact I. }
+  2:{ rewrite Hpk. cbn [negb]. apply IH; try assumption. unfold memo_ok. destruct m; [rewrite Esl|]; exact I. }
   destruct Hraw as (Hht & Hde & up & h & Hup & Hh).
-  cbv zeta. unfold key_well_encoded in Hpk. rewrite Hpk, Hup, Hh. cbn [negb].
+  cbv zeta. rewrite Hpk, Hup, Hh. cbn [negb].
   assert (Hcont : forall b, b = orc_parse_sig orc (uses_der_parser c) sg ->
             ms_struct orc t in_idx c script krest (Some b) (raw :: srest) = LDone (greedy pair_ok krest (raw :: srest))).
   { intros b Hb. apply IH; try assumption. unfold memo_ok. rewrite Esl. exact Hb. }
